@@ -87,7 +87,7 @@ let run_apply infile outfile =
             | 'c' -> PCmd (bytes_of_string (string_of_int (base + 1 + i)), [])
             | 'e' -> PEmpty
             | _ -> PConf) (List.init (String.length kinds) (String.get kinds)) in
-        log := number (n_of_int (base + 1)) pl;
+        log := number_log (n_of_int (base + 1)) pl;
         applied := n_of_int base; dead := false;
         Printf.fprintf oc "CASE %s\n" name
       | ["CASE"; name; base] ->
@@ -95,7 +95,7 @@ let run_apply infile outfile =
         Printf.fprintf oc "CASE %s\n" name
       | ["W"; lo; len] ->
         if !dead then Printf.fprintf oc "B DEAD\n" else begin
-          let b = window !log (nat_of_int (int_of_string lo)) (nat_of_int (int_of_string len)) in
+          let b = log_window !log (nat_of_int (int_of_string lo)) (nat_of_int (int_of_string len)) in
           match ready_step !applied b with
           | None -> dead := true; Printf.fprintf oc "B FATAL\n"
           | Some ((a', nents), batch) ->
@@ -107,8 +107,95 @@ let run_apply infile outfile =
       | _ -> ()) (read_lines infile);
   close_out oc
 
+(* ---- lin: linearizability of a recorded history against the sequential model [exec] ----
+   Input (one block per key; every operation touches exactly that key):
+     KEY <name>
+     O <invoke_us> <response_us|inf> <reply, blanks written as '_'|?> <arghex>*
+     END
+   "?" / inf: the client got no definite answer (time-out, connection lost): the operation may
+   have taken effect at any point after its invocation, or never.
+   Search: Wing & Gong / Lowe -- repeatedly pick an operation that no other pending operation
+   strictly precedes in real time, apply it to the model state, require the model's reply to be
+   the observed one; memoise (set of linearised operations, model state). *)
+let has_crlf (b : byte list) = List.exists (fun c -> let ch = char_of_byte c in ch = '\r' || ch = '\n') b
+let starts_with (s : string) (p : string) =
+  String.length s >= String.length p && String.sub s 0 (String.length p) = p
+let string_of_z (z : z) : string = string_of_bytes (z_to_dec z)
+let rec print_reply (r : reply) : string =
+  match r with
+  | RSimple s -> "+" ^ hx s ^ (if has_crlf s then "!" else "")
+  | RErr s ->
+    let t = string_of_bytes s in
+    (if starts_with t "WRONGTYPE" then "-W" else "-E") ^ (if has_crlf s then "!" else "")
+  | RInt z -> ":" ^ string_of_z z
+  | RBulk b -> "$" ^ hx b
+  | RNil -> "$nil"
+  | RArr l -> "*[" ^ String.concat " " (List.map print_reply l) ^ "]"
+  | RNilArr -> "*nil"
+  | RPlain s -> "~" ^ hx s
+
+type hop = { inv : float; resp : float; obs : string; args : byte list list }
+
+let check_lin (ops : hop array) : bool * int =
+  let n = Array.length ops in
+  let seen = Hashtbl.create 4096 in
+  let explored = ref 0 in
+  let key (lin : Bytes.t) (d : db) = Bytes.to_string lin ^ Marshal.to_string d [] in
+  let rec go (lin : Bytes.t) (d : db) : bool =
+    incr explored;
+    (* all operations with a definite answer linearised? *)
+    let pending_def = ref false and min_resp = ref infinity in
+    for i = 0 to n - 1 do
+      if Bytes.get lin i = '0' then begin
+        if ops.(i).obs <> "?" then pending_def := true;
+        if ops.(i).resp < !min_resp then min_resp := ops.(i).resp
+      end
+    done;
+    if not !pending_def then true
+    else begin
+      let ok = ref false in
+      let i = ref 0 in
+      while not !ok && !i < n do
+        let o = ops.(!i) in
+        if Bytes.get lin !i = '0' && o.inv <= !min_resp then begin
+          let (r, d') = exec d Z0 Z0 o.args RNil in
+          if o.obs = "?" || print_reply r = o.obs then begin
+            let lin' = Bytes.copy lin in
+            Bytes.set lin' !i '1';
+            let k = key lin' d' in
+            if not (Hashtbl.mem seen k) then begin
+              Hashtbl.add seen k ();
+              if go lin' d' then ok := true
+            end
+          end
+        end;
+        incr i
+      done;
+      !ok
+    end in
+  let r = go (Bytes.make n '0') empty_db in
+  (r, !explored)
+
+let run_lin infile outfile =
+  let oc = open_out_bin outfile in
+  let name = ref "" and cur = ref [] in
+  List.iter (fun l ->
+      match split_ws l with
+      | ["KEY"; k] -> name := k; cur := []
+      | "O" :: inv :: resp :: obs :: args ->
+        cur := { inv = float_of_string inv;
+                 resp = (if resp = "inf" then infinity else float_of_string resp);
+                 obs = String.map (fun c -> if c = '_' then ' ' else c) obs; args = List.map unhx args } :: !cur
+      | ["END"] ->
+        let ops = Array.of_list (List.rev !cur) in
+        let (ok, explored) = check_lin ops in
+        Printf.fprintf oc "%s %s ops=%d explored=%d\n" (if ok then "LIN" else "NONLIN") !name (Array.length ops) explored
+      | _ -> ()) (read_lines infile);
+  close_out oc
+
 let () =
   match Array.to_list Sys.argv with
+  | [_; "lin"; i; o] -> run_lin i o
   | [_; "enc"; i; o] -> run_enc i o
   | [_; "entries"; i; o] -> run_entries i o
   | [_; "apply"; i; o] -> run_apply i o
